@@ -42,6 +42,7 @@ FACTOR = {'s': 1.0, 'ms': 0.001, 'Hz': 1.0, 'kHz': 1000.0, 'mV': 0.001}
 BASE = {'s': 's', 'ms': 's', 'Hz': 'Hz', 'kHz': 'Hz', 'mV': 'V'}
 KINDS = ['S', 'R', 'L', 'F']
 SETUP = ('reset', 'arr', 'tag', 'mtag', 'ref', 'feat')
+NOSPEC = ('dimunit', 'indata', 'pti1', 'ptiv')        # helper functions: judged against the model only
 
 
 class Dim:
@@ -82,6 +83,9 @@ class Dim:
         elif kind == 'F':
             self.rows = n if consistent else rnd.choice([n, n + 3, 0])
             self.alen = self.rows if self.rows else (1 << 53)
+            # with a column index (token FC): same axis, but getDimensionUnit reports the unit of that column
+            self.fc = rnd.random() < 0.4
+            self.colunit = rnd.choice([None, 's', 'ms', 'mV']) if self.fc else None
 
     def coord(self, i):
         if self.kind == 'S':
@@ -101,6 +105,8 @@ class Dim:
             return '%s %d %s %s' % (self.kind, len(self.ticks), ' '.join(enc(x) for x in self.ticks), u)
         if self.kind == 'L':
             return 'L %d' % self.labels
+        if getattr(self, 'fc', False):
+            return 'FC %d %s' % (self.rows, encs(self.colunit) if self.colunit else '-')
         return 'F %d' % self.rows
 
 
@@ -250,6 +256,87 @@ PLAIN_ROUTES = {'offcnt': 'util::getOffsetAndCount(Tag, DataArray, NDSize&, NDSi
                 'taggeda': 'util::taggedData(Tag, DataArray, [match]) on an array that need not be referenced',
                 'moffcnt': 'util::getOffsetAndCount(MultiTag, DataArray, vector<ndsize_t>, vector<NDSize>&, vector<NDSize>&, match) (declared as getOffestAndCount)',
                 'moffcnt1': 'util::getOffsetAndCount(MultiTag, DataArray, ndsize_t, NDSize&, NDSize&, [match])'}
+
+
+DIRECT = {'dimunit': 'util::getDimensionUnit(Dimension)',
+          'indata': 'util::positionInData(DataArray, NDSize) + util::positionAndExtentInData(DataArray, NDSize, NDSize), called directly',
+          'pti1': 'util::positionToIndex(double, string, PositionMatch, const Dimension &)  (exported, not declared in a header)',
+          'ptiv': 'util::positionToIndex(starts, ends, units, RangeMatch, const Dimension &)  (exported, not declared in a header)',
+          'wtagged': 'DataView::setData through a view retrieved by util::taggedData(Tag ...), array read back',
+          'mwtagged1': 'DataView::setData through a view retrieved by util::taggedData(MultiTag ...), array read back',
+          'units-with-blanks': 'Tag::units / MultiTag::units (vector) given strings with blanks (stored sanitised)',
+          'FC-dimension': 'data-frame dimension with a column index (getDimensionUnit reports the column unit)'}
+U64MAX = (1 << 64) - 1
+
+
+def _u64(v):
+    return str(v) if v < (1 << 62) else hex(v)
+
+
+def blanked(rnd, units, counts=None):
+    """unit strings as a user may type them: blanks anywhere (the setters deblank before storing)"""
+    out = []
+    for u in units:
+        if u != 'none' and rnd.random() < 0.15:
+            k = rnd.randrange(0, len(u) + 1)
+            u = u[:k] + rnd.choice([' ', '  ', '\t']) + u[k:]
+            if counts is not None:
+                counts['units-with-blanks'] = counts.get('units-with-blanks', 0) + 1
+        out.append(u)
+    return out
+
+
+def direct_queries(rnd, arr, counts=None):
+    """calls of the helper functions of dataAccess.hpp on one array: unit of every dimension, in-data tests around the
+    extent (ranks that agree or not, zero / huge counts), the generic-Dimension position -> index dispatchers"""
+    def cnt(k, n=1):
+        if counts is not None:
+            counts[k] = counts.get(k, 0) + n
+    lines = []
+    rank = len(arr.shape)
+    for d in range(rank):
+        if rnd.random() < 0.6:
+            lines.append('dimunit %s %d' % (arr.aid, d))
+            cnt('dimunit')
+            if getattr(arr.dims[d], 'fc', False):
+                cnt('FC-dimension')
+    for _ in range(rnd.choice([1, 2, 3])):
+        r = rank if rnd.random() < 0.8 else max(0, rank + rnd.choice([-1, 1]))
+        rc = r if rnd.random() < 0.85 else max(0, r + rnd.choice([-1, 1]))
+        pos, count = [], []
+        for d in range(max(r, rc)):
+            s = arr.shape[d] if d < rank else 3
+            p = rnd.choice([0, 0, max(0, s - 1), s, s + 1, rnd.randrange(0, s), U64MAX])
+            c = rnd.choice([0, 1, 1, max(0, s - p) if p <= s else 1, s - p + 1 if p <= s else 2, s, U64MAX, (1 << 64) - p if p else 1])
+            pos.append(p)
+            count.append(c)
+        pos, count = pos[:r], count[:rc]
+        lines.append(' '.join(['indata', arr.aid, str(len(pos))] + [_u64(x) for x in pos] + [str(len(count))] + [_u64(x) for x in count]))
+        cnt('indata')
+    for _ in range(rnd.choice([1, 2])):
+        d = rnd.randrange(0, rank)
+        dim = arr.dims[d]
+        p, _, _ = pick_position(rnd, dim, arr.shape[d])
+        u, f = tag_unit_for(rnd, dim, rnd.choice(['none', 'none', 'same', 'scaled', 'bad']))
+        lines.append('pti1 %s %d %s %s %s' % (arr.aid, d, enc(p * f), encs(u), rnd.choice(['L', 'LE', 'GE', 'G', 'EQ'])))
+        cnt('pti1')
+    d = rnd.randrange(0, rank)
+    dim = arr.dims[d]
+    n = rnd.choice([0, 1, 2, 3])
+    ss, es, us = [], [], []
+    for _ in range(n):
+        p, _, a = pick_position(rnd, dim, arr.shape[d])
+        e, _ = pick_extent(rnd, dim, arr.shape[d], p, a)
+        u, f = tag_unit_for(rnd, dim, rnd.choice(['none', 'same', 'scaled', 'bad']) if rnd.random() < 0.5 else 'none')
+        ss.append(p * f)
+        es.append((p + e) * f)
+        us.append(u)
+    if rnd.random() < 0.1 and n:
+        (ss if rnd.random() < 0.5 else us).pop()          # sizes that do not agree
+    lines.append(' '.join(['ptiv', arr.aid, str(d), rnd.choice(['incl', 'excl']), str(len(ss))] + [enc(x) for x in ss] +
+                          [str(len(es))] + [enc(x) for x in es] + [str(len(us))] + [encs(x) for x in us]))
+    cnt('ptiv')
+    return lines
 
 
 def is_member_route(route):
@@ -415,7 +502,7 @@ def target_array(info, t):
     try:
         if cmd in ('offcnt', 'taggeda', 'moffcnt', 'moffcnt1'):
             return t[1]
-        if cmd in ('tagged', 'mtagged', 'mtagged1'):
+        if cmd in ('tagged', 'mtagged', 'mtagged1', 'wtagged', 'mwtagged1'):
             return info['refs'][int(t[1])]
         if cmd in ('feature', 'mfeature', 'mfeature1'):
             return info['feats'][int(t[1])][0]
@@ -441,7 +528,7 @@ def signature(kind, case, impl, spec, compare):
         if rank is None:
             pinned = False
             break
-        if t[0].split('@')[0] in ('offcnt', 'tagged', 'taggeda', 'feature'):
+        if t[0].split('@')[0] in ('offcnt', 'tagged', 'taggeda', 'feature', 'wtagged'):
             ns = min(info['np'] or 0, rank)
         else:
             ps = info['pshape'] or []
@@ -528,7 +615,7 @@ def explain(kind, case, impl, spec, compare):
             rank = info['rank'].get(aid)
             if rank is None:
                 return False
-            if t[0].split('@')[0] in ('offcnt', 'tagged', 'taggeda', 'feature'):
+            if t[0].split('@')[0] in ('offcnt', 'tagged', 'taggeda', 'feature', 'wtagged'):
                 ns = min(info['np'] or 0, rank)
             else:
                 ps = info['pshape'] or []
